@@ -27,7 +27,7 @@ ASSUMPTIONS = ["arguments of undocumented types (bytes for str parameters, dict 
                "objects from encoded=True routes need not stringify (the caller vouches for the text)",
                "MemoryError/RecursionError raised by the interpreter outside the quoter on huge inputs is inconclusive, not a violation"]
 
-HOSTILE = [":8080", "user@", "u:p@:81", "git:@", "@", ":", "@:", ":@", "h:x", "u@h:99999", "h:80:80", "127.0.0.1%a:b1", "::1%a/b", "::1%a@b", "1.2.3.4%", "::1%", "fe80::1%a]b", "fe80::1%[", "1.2.3.4%5", "::ffff:1.2.3.4%x:1", "::1%\u0130", "fe80::1%eth\u0130", "::ffff:1.2.3.4%wlan\u0130", "1.2.3.4%\u0130", "::1%\u0130\u0130\u0130x y", "::1%\xe9", "::1%\u01c5", "::1%\xdf", "::1%\ufb01", "::1%\U00010400", "::1%\u0130/", "\u0130", "h%\u0130", "\u0130:1", ".", "..", "./", "a/..", "../..", "/.", "./.", "[]", "[v]", "[v1.]", "][", "//:", "//@", ":0", "%", "%%", "%a", "//[", "//]", "//[]", "//[v]", "//[v1.]:", "//[::1]x", "//[::1]:", "//[::1]:x", "//@:", "//:@", "//u@:0", "//:0",
+HOSTILE = [":8080", "user@", "u:p@:81", "git:@", "@", ":", "@:", ":@", "h:x", "u@h:99999", "h:80:80", "127.0.0.1%a:b1", "::1%a/b", "::1%a@b", "1.2.3.4%", "::1%", "fe80::1%a]b", "fe80::1%[", "1.2.3.4%5", "::ffff:1.2.3.4%x:1", "[127.0.0.1%a:b1]", "http://[1.2.3.4%a:1]:2/", "//u@[1.2.3.4%:]", "::1%\u0130", "fe80::1%eth\u0130", "::ffff:1.2.3.4%wlan\u0130", "1.2.3.4%\u0130", "::1%\u0130\u0130\u0130x y", "::1%\xe9", "::1%\u01c5", "::1%\xdf", "::1%\ufb01", "::1%\U00010400", "::1%\u0130/", "\u0130", "h%\u0130", "\u0130:1", ".", "..", "./", "a/..", "../..", "/.", "./.", "[]", "[v]", "[v1.]", "][", "//:", "//@", ":0", "%", "%%", "%a", "//[", "//]", "//[]", "//[v]", "//[v1.]:", "//[::1]x", "//[::1]:", "//[::1]:x", "//@:", "//:@", "//u@:0", "//:0",
            "http://", "http://@", "http://:", "http://:80", "http://[", "http://[]:80", "http://[::1", "http://::1]", "http://[::1]]", "http://[[::1]]", "http://[v1.x]:99999",
            "http://h:", "http://h:x", "http://h:-1", "http://h:99999", "http://h:８０", "http://u:p@", "http://@h", "http://%", "http://h/%", "http://h/%%%", "http://h?%", "http://h#%",
            "http://h:80:80", "//h:0x50", "http://[v1.]/", "http://[V]/", "http://[vg.x]/", "http://[1.2.3.4]/", "http://[fe80::1%]/", "http://[fe80::1%25]/", "http://[::1%zone]/",
